@@ -698,16 +698,24 @@ class Interp:
             return self.seq_concat(a, b)
         if isinstance(ka, K.Tuple) and isinstance(kb, K.Tuple) and isinstance(op, ast.Add):
             return K.vtuple(K.tuple_items(a) + K.tuple_items(b))
+        if isinstance(ka, K.Set) and isinstance(kb, K.Set) and ka == kb and isinstance(op, ast.BitOr):
+            xs = [self.p.fresh('su!x', srt) for srt in ka.elem.leaf_sorts()]
+            out = self.p.fresh_value(ka, 'union')
+            self.assume_valid(out)
+            self.p.assume(K.forall(xs, K.nsel(out.terms[1], xs) == z3.Or(K.nsel(a.terms[1], xs), K.nsel(b.terms[1], xs)),
+                                   patterns=[K.nsel(out.terms[1], xs), K.nsel(a.terms[1], xs), K.nsel(b.terms[1], xs)]))
+            self.p.assume(z3.And(out.terms[0] >= a.terms[0], out.terms[0] >= b.terms[0],
+                                 out.terms[0] <= a.terms[0] + b.terms[0]))
+            return out
         if isinstance(ka, K.Set) and isinstance(kb, K.Set) and ka == kb:
             if isinstance(op, ast.Sub):
                 xs = [self.p.fresh('sd!x', srt) for srt in ka.elem.leaf_sorts()]
-                body = z3.And(K.nsel(a.terms[1], xs), z3.Not(K.nsel(b.terms[1], xs)))
-                for bv in reversed(xs):
-                    body = z3.Lambda([bv], body)
-                size = self.p.fresh('sd!size', z3.IntSort())
-                self.p.assume(z3.And(0 <= size, size <= a.terms[0]))
-                out = V(ka, [size, body])
+                out = self.p.fresh_value(ka, 'setdiff')
                 self.assume_valid(out)
+                self.p.assume(K.forall(xs, K.nsel(out.terms[1], xs) ==
+                                       z3.And(K.nsel(a.terms[1], xs), z3.Not(K.nsel(b.terms[1], xs))),
+                                       patterns=[K.nsel(out.terms[1], xs), K.nsel(a.terms[1], xs)]))
+                self.p.assume(out.terms[0] <= a.terms[0])
                 return out
         raise Unsupported('binop %s on %r, %r (line %s)' % (type(op).__name__, ka, kb,
                                                            getattr(node, 'lineno', '?')))
@@ -819,6 +827,8 @@ class Interp:
         if isinstance(base, PyObj):
             if base.tag in ('emptylist', 'emptydict', 'emptyset'):
                 return PyObj('cmethod', self_=base, name=attr, target=node.value if node is not None else None)
+            if base.tag == 'builtin' and base.name == 'dict' and attr == '__eq__':
+                return PyObj('builtin', name='dict_eq')
             if base.tag == 'exc':
                 if attr in base.fields:
                     return base.fields[attr]
@@ -1037,6 +1047,6 @@ SPEC_BUILTINS = {'old', 'implies', 'iff', 'forall', 'exists', 'result', 'ite', '
                  'unchanged', 'const_seq', 'allocated', 'exc_attr', 'has_exc_attr', '_', 'text_type', 'fun', 'index_in', 'last_sorted', 'use_lemma', 'to_str', 'sel', 'is_none', 'some', 'truthy'}
 
 MODULES = {'six', 'logging', 'logger', 'models', 'collections'}
-MODULE_BUILTINS = {'six.moves.range': 'range', 'six.iteritems': 'iteritems', 'six.iterkeys': 'iterkeys',
+MODULE_BUILTINS = {'dict.__eq__': 'dict_eq', 'six.moves.range': 'range', 'six.iteritems': 'iteritems', 'six.iterkeys': 'iterkeys',
                    'six.itervalues': 'itervalues', 'six.text_type': 'str',
                    'collections.OrderedDict': 'OrderedDict'}
